@@ -1,5 +1,8 @@
 import Gomjml.Core.ClassAttr
+import Gomjml.Core.ClassMerge
+import Gomjml.Core.SmallPure
 import Driver.MixP
+import Driver.TagP
 /-! driver sub-protocol `classattr <css> <n> <part>×n <entry>…` (hex, `-` = empty); entry = `<class>:<prop>=<val>,<prop>=<val>…`
     Answer: `<hex of build> <hex of inlineStyle table (build …)> <all parts tame 0|1> <fields(build) = flatMap fields 0|1>` -/
 open Gomjml.ClassAttr Gomjml.InlineCss
@@ -31,3 +34,40 @@ def handle (args : List String) : String :=
   | _ => "bad-request"
 
 end Driver.ClsP
+
+/-! `classmerge <class>… ? <attr>…`: class = `!` (not defined) or `<k>:<hexattr>=<hexval>,…` (`0:` = defined, empty);
+    answer: per queried attribute the hex of what `GetClassAttribute` gives (css-class: the joined parts), `-` = empty -/
+namespace Driver.ClsM
+open Gomjml.ClassMerge Gomjml.Store
+open Driver.TagP (unhexS hexOfString)
+
+def un (h : String) : String := if h == "-" then "" else unhexS h
+
+def lowerAscii (s : String) : String := String.ofList (s.toList.map fun c => if c ≥ 'A' && c ≤ 'Z' then Char.ofNat (c.toNat + 32) else c)
+
+/-- `normalizeAttributeValue` -/
+def norm (name value : String) : String :=
+  if value == "" then value
+  else if ((lowerAscii name).splitOn "color").length > 1 then
+    String.fromUTF8! (ByteArray.mk (Gomjml.SmallPure.normalizeColor value.toUTF8.toList).toArray)
+  else value
+
+def cls (s : String) : ClassDefs :=
+  if s == "!" then none else
+  match s.splitOn ":" with
+  | [_, kvs] => some ((kvs.splitOn ",").filterMap fun kv => match kv.splitOn "=" with
+      | [k, v] => some (un k, un v)
+      | _ => none)
+  | _ => some []
+
+def sh (s : String) : String := if s == "" then "-" else hexOfString s
+
+def handle (args : List String) : String :=
+  let cs := (args.takeWhile (· != "?")).map cls
+  let qs := (args.dropWhile (· != "?")).drop 1
+  let m := merge norm cs
+  " ".intercalate (qs.map fun q =>
+    let a := un q
+    if a == "css-class" then sh (cssJoined m.2) else sh ((get m.1 a).getD ""))
+
+end Driver.ClsM
